@@ -467,15 +467,30 @@ def validator_constraints(ctx, cfg):
     got: dict[str, list] = {}
     exc_bad = []
     nguards = 0
+    import copy
+
+    alias: dict[str, ast.AST] = {}  # local name -> the `self.<field>` chain it currently stands for
+
+    class _Sub(ast.NodeTransformer):
+        def visit_Name(self, n):
+            if isinstance(n.ctx, ast.Load) and n.id in alias:
+                return copy.deepcopy(alias[n.id])
+            return n
+
     for s in fn.body:
         if isinstance(s, ast.Expr) and isinstance(s.value, ast.Constant):
+            continue
+        if isinstance(s, ast.Assign) and len(s.targets) == 1 and isinstance(s.targets[0], ast.Name) and isinstance(s.value, ast.Attribute) \
+                and isinstance(s.value.value, ast.Name) and s.value.value.id == "self":
+            alias[s.targets[0].id] = s.value  # `values = self.field`: later guards on `values` are guards on the field
             continue
         if not (isinstance(s, ast.If) and not s.orelse and len(s.body) == 1 and isinstance(s.body[0], ast.Raise)):
             raise AnalysisError(f"{cfg.name}.__post_init__: statement is not `if <test>: raise`: {norm_text(s)}")
         nguards += 1
         exc = s.body[0].exc
         ename = ast.unparse(exc.func) if isinstance(exc, ast.Call) else ast.unparse(exc) if exc else ""
-        for f, c in parse_guard(s.test):
+        test = _Sub().visit(copy.deepcopy(s.test)) if alias else s.test
+        for f, c in parse_guard(test):
             if c[0] in ("accept", "each", "cond") and f in fields and ast.unparse(fields[f][1].annotation).startswith("int"):
                 c = (c[0],) + tuple(_int_norm(x) if isinstance(x, tuple) and x and isinstance(x[0], Iv) else x for x in c[1:])
             got.setdefault(f, []).append(c)
